@@ -129,32 +129,43 @@ Theorem C10_table_bracketed : forallb (fun h => bracketed (hbody h)) (handlers +
 Proof. exact tie_bracketed. Qed.
 Print Assumptions C10_table_bracketed.
 
-(* THE PROPERTY THEOREM OF THE CHECK (re-proved against the regenerated table on every run):
-   exactly these handlers touch shared state without holding requestMutex.  Removing a Lock() from any other
-   handler, or adding an unlocked handler to the map, makes this vm_compute fail. *)
+(* ---- the three tree-dependent constants (the ONLY lines to edit when the source tree is repaired) ---- *)
+(* handlers that touch shared state without holding requestMutex, in handler-map order *)
 Definition known_unlocked : list name := map nm
   [ "initialize"; "initialized"; "textDocument/hover"; "textDocument/references"; "textDocument/documentSymbol";
     "textDocument/rename"; "textDocument/documentColor"; "completionItem/resolve";
     "workspace/didChangeConfiguration"; "workspace/didChangeWorkspaceFolders"; "workspace/symbol";
     "luahelper/getVarColor"; "luahelper/getOnlineReq" ].
+(* handlers whose work is split over several critical sections (not atomic as a whole) *)
+Definition known_split : list name := map nm [ "workspace/didChangeWorkspaceFolders" ].
+(* goroutines started by handlers that touch shared state without the mutex (telemetry) *)
+Definition known_bg_unlocked : list name := map nm [ "$go/handleRecv"; "$go/UDPReportOnline" ].
+(* AFTER the planned fixes (work/fixes/C10-take-mutex.diff, C10-telemetry-sync.diff) set all three to `map nm []`
+   (with only the first diff: known_unlocked := map nm ["luahelper/getOnlineReq"], the other two as they are except
+   known_split := map nm []).  Nothing else in the Coq development changes: the model is generic in the table;
+   C10_handlers_locked then reads `forallb locked handlers = true`, the refutation theorems become vacuous, and
+   > Theorem C10_real_race_free : forall msgs s, reachable handlers background concurrency msgs s -> ~ race s.
+   > Proof. intros msgs s. apply C10_discipline_sound. vm_compute. reflexivity. Qed.
+   can be added (it needs all three lists empty). *)
 
+(* THE PROPERTY THEOREM OF THE CHECK (re-proved against the regenerated table on every run):
+   exactly these handlers touch shared state without holding requestMutex.  Removing a Lock() from any other
+   handler, or adding an unlocked handler to the map, makes this vm_compute fail. *)
 Theorem C10_only_known_unlocked : unlocked_names handlers = known_unlocked.
 Proof. vm_compute. reflexivity. Qed.
 Print Assumptions C10_only_known_unlocked.
 
-(* AFTER the planned fix (work/fixes/C10-take-mutex.diff) the list is empty: replace the body of known_unlocked by []
-   and C10_only_known_unlocked is then exactly the plan's property theorem
-       C10_handlers_locked : forallb locked handlers = true      (proof: vm_compute. reflexivity.)
-   - the model and all other theorems stay as they are; C10_handlers_locked_refuted / C10_unlocked_refuted are then
-   deleted (their statements become false / vacuous). *)
+(* the plan's C10_handlers_locked, stated so that it follows the constant: today `... = false` (refuted),
+   after the repair `forallb locked handlers = true` *)
+Theorem C10_handlers_locked : forallb locked handlers = is_nil known_unlocked.
+Proof. vm_compute. reflexivity. Qed.
+Print Assumptions C10_handlers_locked.
 
-(* the goroutines started by handlers do not take the mutex at all (telemetry) *)
-Theorem C10_background_unlocked : unlocked_names background = map nm ["$go/handleRecv"; "$go/UDPReportOnline"].
+Theorem C10_background_unlocked : unlocked_names background = known_bg_unlocked.
 Proof. vm_compute. reflexivity. Qed.
 Print Assumptions C10_background_unlocked.
 
-(* exactly one handler splits its work over two critical sections (not atomic as a whole) *)
-Theorem C10_only_known_split : split_names handlers = map nm ["workspace/didChangeWorkspaceFolders"].
+Theorem C10_only_known_split : split_names handlers = known_split.
 Proof. vm_compute. reflexivity. Qed.
 Print Assumptions C10_only_known_split.
 
@@ -181,15 +192,13 @@ Proof.
 Qed.
 Print Assumptions C10_real_no_deadlock.
 
-(* the handlers of the simple shape (for message lists drawn from them C10_serialisable applies to the real table) *)
-Theorem C10_simple_handlers :
-  map hname (filter (fun h => simple_body (hbody h)) handlers) = map nm
-  [ "textDocument/didChange"; "textDocument/didSave"; "textDocument/didOpen"; "textDocument/didClose";
-    "textDocument/definition"; "textDocument/documentHighlight"; "textDocument/signatureHelp";
-    "textDocument/codeLens"; "textDocument/documentLink"; "textDocument/completion";
-    "workspace/didChangeWatchedFiles"; "$/cancelRequest"; "shutdown"; "exit" ].
+(* every handler that keeps the discipline with at most one critical section and starts no goroutine has the
+   simple shape (so C10_serialisable applies to every message list drawn from them) *)
+Theorem C10_locked_unsplit_simple :
+  forallb (fun h => implb (locked h && Nat.leb (count_locks (hbody h)) 1 && is_nil (spawns_of (hbody h)))
+                          (simple_body (hbody h))) handlers = true.
 Proof. vm_compute. reflexivity. Qed.
-Print Assumptions C10_simple_handlers.
+Print Assumptions C10_locked_unsplit_simple.
 
 Theorem C10_real_serialisable :
   forall (St Loc : Type) (exec : nat -> nat -> Loc -> St -> Loc * St) (loc0 : nat -> Loc) (msgs : list msg) (sh0 : St),
@@ -227,22 +236,17 @@ Proof.
 Qed.
 Print Assumptions C10_unlocked_refuted.
 
-(* the plan's C10_handlers_locked is FALSE on this tree *)
-Theorem C10_handlers_locked_refuted : forallb locked handlers = false.
-Proof. vm_compute. reflexivity. Qed.
-Print Assumptions C10_handlers_locked_refuted.
-
 (* the telemetry goroutines race with the handlers that write what they read (DESIGN 6 row 14b) *)
+Definition bg_unlocked_idx : list nat :=
+  filter (fun b => negb (locked_body (body_of handlers background true b))) (seq 0 (length background)).
+
 Theorem C10_background_refuted :
-  forall b, b < length background ->
+  forall b, In b bg_unlocked_idx ->
     exists msgs s i j ti,
       reachable handlers background concurrency msgs s /\ race_pair s i j /\
       nth_error (s_pool s) i = Some ti /\ t_h ti = b /\ t_bg ti = true.
 Proof.
-  intros b Hb. apply bg_refuted_b_sound.
-  assert (H : forallb (bg_refuted_b handlers background concurrency) (seq 0 (length background)) = true)
-    by (vm_compute; reflexivity).
-  rewrite forallb_forall in H. apply H. apply in_seq. split; [apply Nat.le_0_l|exact Hb].
+  intros b Hin. apply bg_refuted_b_sound. revert b Hin. apply forallb_forall. vm_compute. reflexivity.
 Qed.
 Print Assumptions C10_background_refuted.
 
@@ -250,9 +254,9 @@ Print Assumptions C10_background_refuted.
 (* the discipline is satisfiable by a non-trivial table: the 9 handlers of the real table that lock and access *)
 Example C10_discipline_inhabited :
   let hs := filter (fun h => locked h && takes_lock (hbody h)) handlers in
-  forallb locked (hs ++ []) = true /\ length hs = 9 /\
+  forallb locked (hs ++ []) = true /\ 9 <= length hs /\
   existsb (fun h => existsb (fun a => is_wr (snd a)) (all_accs (hbody h))) hs = true.
-Proof. vm_compute. auto. Qed.
+Proof. vm_compute. repeat split; try reflexivity; repeat constructor. Qed.
 
 (* the hypothesis of C10_serialisable is met by a realistic overlapping history:
    definition, completion, didChange, didSave, signatureHelp, watched files *)
